@@ -48,6 +48,7 @@ func (m *module) setLoading(other *module) {
 
 // done marks the receiver as done.
 func (m *module) done(data starlark.StringDict, err error) (starlark.StringDict, error) {
+	verifYield("mod.done", m.label.String())
 	m.data, m.err = data, err
 
 	m.m.Lock()
@@ -61,6 +62,7 @@ func (m *module) done(data starlark.StringDict, err error) (starlark.StringDict,
 // wait waits for the receiver to finish loading. It returns an error if the module fails
 // to load or if the wait would result in a cyclic dependency.
 func (m *module) wait(waiter *module) (starlark.StringDict, error) {
+	verifYield("mod.wait", m.label.String())
 	m.m.Lock()
 	defer m.m.Unlock()
 
